@@ -309,3 +309,22 @@ func (n *Node) ValidateTx(txb []byte) (res string) {
 	}
 	return ""
 }
+
+// OwnerAt returns the index (into BPKeys) of the producer whose slot contains ts according to the
+// real DPoS object of this node, or -1.
+func (n *Node) OwnerAt(ts int64) int {
+	best, err := n.cs.GetBestBlock()
+	if err != nil {
+		return -1
+	}
+	for i, k := range n.keys {
+		probe := types.NewBlock(types.NewBlockHeaderInfoFromPrevBlock(best, ts, n.cfg.Hardfork), nil, nil, nil, nil, nil)
+		if probe.Sign(k) != nil {
+			continue
+		}
+		if n.d.IsBlockValid(probe, best) == nil {
+			return i
+		}
+	}
+	return -1
+}
